@@ -178,8 +178,8 @@ pub fn inputs_of_base(plan: &Plan, b: u64, corpus: &[(String, Vec<u8>)]) -> Vec<
                 if hostile::MODEL_OPS[op] == "many_links_to_big_tilemap" && (r > 0 || b % 16 != 7 || plan.mode == Mode::Walk || plan.mode == Mode::Digest) {
                     continue; // a 4-16 M tile map: one base in sixteen, loading only (memory / totality)
                 }
-                if hostile::MODEL_OPS[op] == "palette_hundreds_of_thousands" && (r > 0 || b % 16 != 11) {
-                    continue; // 1.8 MB: one base in sixteen
+                if hostile::MODEL_OPS[op] == "palette_hundreds_of_thousands" && (r > 0 || b != 11) {
+                    continue; // 1.2 - 1.8 MB: once per run and build
                 }
                 if hostile::MODEL_OPS[op] == "tilemap_huge_off_canvas" && (r > 0 || b % 16 != 13 || plan.mode == Mode::Mem || plan.mode == Mode::Load) {
                     continue; // only where images are rendered: one base in sixteen, every build
@@ -425,7 +425,7 @@ pub fn worker_main(ctx: &Ctx, a: WorkerArgs) -> i32 {
                 first_base = false;
                 for (s, input) in inputs.iter().enumerate().skip(start as usize) {
                     // (deep group nests always run: stack depth per call differs most in the unoptimised build)
-                    if sub_sample > 1 && s != 0 && input.operator != "model:nested_groups" && input.operator != "model:tilemap_huge_off_canvas" && ((s as u64 + b) % sub_sample != 0 || input.operator == "model:tilemap_extent_i32" || input.operator == "model:tileset_strip_height_u32" || input.operator == "model:palette_colliding_keys") {
+                    if sub_sample > 1 && s != 0 && input.operator != "model:nested_groups" && input.operator != "model:tilemap_huge_off_canvas" && input.operator != "model:palette_hundreds_of_thousands" && ((s as u64 + b) % sub_sample != 0 || input.operator == "model:tilemap_extent_i32" || input.operator == "model:tileset_strip_height_u32" || input.operator == "model:palette_colliding_keys") {
                         // (the unoptimised build needs minutes per rendering of a 2^31-pixel tilemap extent)
                         continue;
                     }
